@@ -600,7 +600,7 @@ func isSuccessReturn(ret *ssa.Return) bool {
 	res := sig.Results()
 	for i := 0; i < res.Len(); i++ {
 		if types.Identical(res.At(i).Type(), types.Universe.Lookup("error").Type()) {
-			v := ret.Results[i]
+			v := retVal(ret, i)
 			if k, ok := v.(*ssa.Const); ok && k.IsNil() {
 				return true
 			}
